@@ -883,6 +883,7 @@ func vpC15RunScenario(t *rapid.T, sc vpC15Scenario) {
 	if sc.CloseOnShutdown {
 		vpExtra("cfg/CloseOnShutdown", 1)
 	}
+	shutRet = nil // consumed: nothing left for cleanup to wait for
 	if shutErr != nil {
 		// the property speaks about a nil return only; our listeners never fail to close
 		t.Fatalf("VP-INCONCLUSIVE: Shutdown returned %v\nscenario: %s", shutErr, sc)
@@ -1037,9 +1038,72 @@ func TestVP_C15_Shutdown(t *testing.T) {
 	})
 }
 
-// vpC15ProbePipe: deterministic probe of the known-finding class (placeholder until confirmed).
+// vpC15ProbePipe: deterministic probe of the known-finding class: two pipelined requests delivered in
+// one read, the first handler is released only after Shutdown has set the stop flag; no
+// CloseOnShutdown, no ReduceMemoryUsage. Present = the first handler ran, Shutdown returned nil,
+// yet the client has no complete response for it.
 var vpC15ProbeOnce sync.Once
 
 func vpC15ProbePipe() {
-	vpC15ProbeOnce.Do(func() {})
+	vpC15ProbeOnce.Do(func() {
+		for _, pad := range []int{0, 5000} {
+			gate := make(chan struct{})
+			started := make(chan struct{}, 4)
+			s := &Server{Logger: vpNopLogger{}, Handler: func(ctx *RequestCtx) {
+				if string(ctx.Path()) == "/slow" {
+					started <- struct{}{}
+					<-gate
+				}
+				ctx.SetBodyString("id=" + string(ctx.Path()) + ";" + strings.Repeat("p", pad))
+			}}
+			ln := vpC15NewListener()
+			served := make(chan error, 1)
+			go func() { served <- s.Serve(ln) }()
+			fail := func(why string) {
+				close(gate)
+				ln.Close()
+				vpNote("C15 pipe probe could not run: %s", why)
+			}
+			w, err := ln.dial()
+			if err != nil {
+				fail("dial: " + err.Error())
+				return
+			}
+			w.Feed([]byte("GET /slow HTTP/1.1\r\nHost: vp\r\n\r\nGET /next HTTP/1.1\r\nHost: vp\r\n\r\n"))
+			select {
+			case <-started:
+			case <-time.After(vpC15SetupMax):
+				w.Close()
+				fail("handler did not start")
+				return
+			}
+			ret := make(chan error, 1)
+			go func() { ret <- s.Shutdown() }()
+			dl := time.Now().Add(vpC15SetupMax)
+			for s.stop.Load() != 1 && time.Now().Before(dl) {
+				time.Sleep(50 * time.Microsecond)
+			}
+			close(gate)
+			var serr error
+			select {
+			case serr = <-ret:
+			case <-time.After(vpC15SetupMax):
+				w.Close()
+				ln.Close()
+				vpNote("C15 pipe probe: Shutdown did not return")
+				return
+			}
+			<-served
+			w.WaitOut(vpC15Slack, func([]byte) bool { return false }) // returns once the server closed the connection
+			out := w.Out()
+			resps, rest := vpC15Parse(out)
+			w.Close()
+			if serr == nil && len(resps) == 0 {
+				vpProbe(vpC15KeyPipe, true, fmt.Sprintf("GET /slow + GET /next in one read, /slow released during Shutdown, body %d bytes: Shutdown returned nil, "+
+					"client got %d complete responses and %d stray bytes before the close", pad+9, len(resps), len(rest)))
+				return
+			}
+		}
+		vpProbe(vpC15KeyPipe, false, "the response of a request with pipelined successors is delivered when its handler ends during Shutdown")
+	})
 }
